@@ -100,19 +100,30 @@ def namespace(fill="arange", seed=0):
 
 
 class E:
-    __slots__ = ("tag", "op", "kids", "src", "inputs", "out", "depth", "core", "ground", "nbind")
+    __slots__ = ("tag", "op", "kids", "src", "ref", "inputs", "out", "depth", "core", "ground", "nbind", "xtags")
 
-    def __init__(self, tag, op, kids, src, inputs, out, core=True, ground=True, nbind=0):
+    def __init__(self, tag, op, kids, src, inputs, out, core=True, ground=True, nbind=0, ref=None, value_kids=(),
+                 xtags=()):
+        """``src`` / ``ref`` are format strings over the children's src / ref ({0}, {1}, ...).
+        ``ref`` builds the REFERENCE term (same textbook meaning; differs from ``src`` only where the
+        expression under test cannot be constructed under ``reflect``).
+        ``value_kids``: indices of children used as substitution values / indices; a bare Variable or Slice
+        there does not make the expression non-ground."""
         self.tag = tag
         self.op = op
         self.kids = tuple(kids)
+        self.ref = (ref or src).format(*[k.ref for k in kids])
+        src = src.format(*[k.src for k in kids])
         self.src = src
+        self.xtags = tuple(xtags)
         self.inputs = inputs  # OrderedDict name -> Dom
         self.out = out
         self.depth = 1 + max([k.depth for k in kids], default=-1)
         # core: built only from the documented core constructors; ground: no free Variable leaf
         self.core = core and all(k.core for k in kids)
-        self.ground = ground and all(k.ground for k in kids)
+        self.ground = ground and all(
+            k.ground or (i in value_kids and k.tag == "variable") for i, k in enumerate(kids)
+        )
         self.nbind = nbind + sum(k.nbind for k in kids)
 
     def __repr__(self):
@@ -122,7 +133,7 @@ class E:
         return 1 + sum(k.size() for k in self.kids)
 
     def tags(self):
-        out = [self.tag + (":" + str(self.op) if self.op else "")]
+        out = [self.tag + (":" + str(self.op) if self.op is not None else "")] + list(self.xtags)
         for k in self.kids:
             out += k.tags()
         return out
@@ -182,7 +193,7 @@ def slice_(name, start, stop, step, dtype):
     if size <= 0:
         return None
     return E("slice", None, (), "Slice(%r, %d, %d, %d, %d)" % (name, start, stop, step, dtype),
-             OrderedDict([(name, bint(size))]), bint(dtype))
+             OrderedDict([(name, bint(size))]), bint(dtype), ground=False)
 
 
 # ----------------------------------------------------------------------------------------------
@@ -202,9 +213,50 @@ CORE_BINARY = set(BINARY_REAL) | set(BINARY_INT)
 CORE_REDUCE = {"add", "mul", "max", "min", "logaddexp"}
 
 
+
+ASSOC = {"add", "mul", "max", "min", "logaddexp", "and_", "or_", "xor"}
+DISTRIBUTIVE = {("add", "mul"), ("max", "mul"), ("min", "mul"), ("max", "add"), ("min", "add"), ("or_", "and_"),
+                ("logaddexp", "add")}
+
+
+def subs_tags(a, vals):
+    """classify a substitution map f(**vals) (vals: key -> E | int | float | str) by the features that matter
+    to Tensor.eager_subs / substitute(): used to match known findings"""
+    tags = set()
+    renames = []  # (key, target name, kind)
+    for k, v in vals.items():
+        if k not in a.inputs:
+            continue
+        if isinstance(v, str):
+            renames.append((k, v, "variable"))
+        elif isinstance(v, E) and v.tag in ("variable", "slice"):
+            (n,) = v.inputs
+            renames.append((k, n, v.tag))
+        if isinstance(v, E) and any(n in vals and n in a.inputs for n in v.inputs) and v.tag not in ("variable", "slice"):
+            tags.add("subs-value-mentions-key")
+        if isinstance(v, E) and v.tag == "binary" and v.op in COMPARISONS:
+            tags.add("bool-index")
+        if isinstance(v, E) and v.tag == "slice" and a.tag == "cat":
+            tags.add("cat-slice-value")
+    renamed_keys = {k for k, _, _ in renames}
+    for k, target, kind in renames:
+        if target == k and kind == "variable":
+            continue
+        stays = target in a.inputs and target not in renamed_keys
+        dup = [r for r in renames if r[1] == target and r[0] != k]
+        clash = bool(dup) and not all(r[2] == "variable" for r in dup + [(k, target, kind)])
+        selfdup = target in renamed_keys and target != k and any(r[0] == target and r[1] == target for r in renames)
+        if stays or clash or selfdup:
+            tags.add("rename-onto-existing-input")
+            if kind == "slice":
+                tags.add("slice-value")
+    return tuple(sorted(tags))
+
+
 class Family:
     name = None
     arity = 1
+    leaf_values = False  # children after the first must be leaves
 
     def params(self, kids):
         return [None]
@@ -233,7 +285,8 @@ class FUnary(Family):
             out = a.out
         else:
             out = Dom(None, a.out.shape)  # funsor's generic rule says Bint[n]; the textbook has no such type
-        return E("unary", op, kids, "Unary(ops.%s, %s)" % (op, a.src), a.inputs, out, core=op in CORE_UNARY)
+        xt = ("generic-bint-range",) if (not is_real(a.out) and op == "neg") else ()
+        return E("unary", op, kids, "Unary(ops.%s, {0})" % op, a.inputs, out, core=op in CORE_UNARY, xtags=xt)
 
 
 def int_binary_size(op, n, m):
@@ -292,8 +345,17 @@ class FBinary(Family):
             if size is not None and size <= 0:
                 return None
             out = Dom(size, shape)
-        return E("binary", op, kids, "Binary(ops.%s, %s, %s)" % (op, a.src, b.src), inputs, out,
-                 core=op in CORE_BINARY)
+        xt = []
+        if not is_real(a.out):
+            if op not in COMPARISONS:
+                xt.append("bint-arith")
+            if op == "sub":
+                xt.append("generic-bint-range")
+            if op == "floordiv":
+                xt.append("floordiv-bint")
+            if op in ("and_", "or_", "xor") and (a.out.size != 2 or b.out.size != 2):
+                xt += ["generic-bint-range", "bitop-non-boolean"]
+        return E("binary", op, kids, "Binary(ops.%s, {0}, {1})" % op, inputs, out, core=op in CORE_BINARY, xtags=xt)
 
 
 class FMatmul(Family):
@@ -311,8 +373,7 @@ class FMatmul(Family):
             shape = np.matmul(np.zeros(a.out.shape), np.zeros(b.out.shape)).shape
         except ValueError:
             return None
-        return E("binary", "matmul", kids, "Binary(ops.matmul, %s, %s)" % (a.src, b.src), inputs,
-                 real(*shape), core=False)
+        return E("binary", "matmul", kids, "Binary(ops.matmul, {0}, {1})", inputs, real(*shape), core=False)
 
 
 def int_names(e):
@@ -347,19 +408,32 @@ class FReduce(Family):
         (a,) = kids
         op, names, unrelated = p
         inputs = OrderedDict((k, d) for k, d in a.inputs.items() if k not in names)
+        ref = None
         if unrelated:
             parts = []
             for n in names:
                 dom = a.inputs.get(n, bint(self.extra[1]))
                 parts.append("Variable(%r, %s)" % (n, dom_src(dom)))
             rv = "frozenset([%s])" % ", ".join(parts)
+            # Reduce over a variable its argument does not mention cannot be constructed under reflect
+            # (KeyError in Reduce._alpha_convert); the reference is the Contraction with the same meaning.
+            ref = "Contraction(ops.%s, ops.null, %s, {0})" % (op, rv)
         else:
             rv = "frozenset([%s])" % ", ".join(repr(n) for n in names)
         out = a.out
         if not is_real(out) and op == "add":
             out = Dom(None, out.shape)
-        return E("reduce", op, kids, "%s.reduce(ops.%s, %s)" % (a.src, op, rv), inputs, out,
-                 core=op in CORE_REDUCE, nbind=1)
+        xt = ["reduce-unrelated-var"] if unrelated else []
+        if not is_real(a.out) and op == "add":
+            xt.append("reduce-bint-range")
+        if a.tag == "binary" and a.op in ASSOC and (op, a.op) not in DISTRIBUTIVE and not (
+                op == a.op and op in ("max", "min", "and_", "or_")):
+            if a.op != op or any(n not in k.inputs for n in names for k in a.kids):
+                xt.append("reduce-over-nondistributive-binary")
+        if a.tag == "stack" and any(n not in k.inputs for n in names for k in a.kids):
+            xt.append("stack-part-missing-reduced-var")
+        return E("reduce", op, kids, "{0}.reduce(ops.%s, %s)" % (op, rv), inputs, out,
+                 core=op in CORE_REDUCE, nbind=1, ref=ref, xtags=xt)
 
 
 class FOutReduce(Family):
@@ -392,10 +466,12 @@ class FOutReduce(Family):
         else:
             shape = ()
         out = Dom(2, shape) if op in ("all", "any") else Dom("real", shape)
-        if a.out.shape:
-            src = "%s.%s(%r, %r)" % (a.src, op, axis, keepdims)
+        opcls = {"sum": "SumOp", "prod": "ProdOp", "max": "AmaxOp", "min": "AminOp", "logsumexp": "LogsumexpOp",
+                 "mean": "MeanOp", "std": "StdOp", "var": "VarOp", "all": "AllOp", "any": "AnyOp"}[op]
+        if op in ("std", "var"):
+            src = "Unary(ops.%s(%r, 0, %r), {0})" % (opcls, axis, keepdims)
         else:
-            src = "%s.%s()" % (a.src, op)
+            src = "Unary(ops.%s(%r, %r), {0})" % (opcls, axis, keepdims)
         return E("outreduce", op, kids, src, a.inputs, out, core=False)
 
 
@@ -416,7 +492,7 @@ class FReshape(Family):
 
     def make(self, kids, shape):
         (a,) = kids
-        return E("reshape", None, kids, "%s.reshape(%r)" % (a.src, tuple(shape)), a.inputs,
+        return E("reshape", None, kids, "{0}.reshape(%r)" % (tuple(shape),), a.inputs,
                  Dom(a.out.size, tuple(shape)), core=False)
 
 
@@ -462,7 +538,7 @@ class FGetslice(Family):
             return None
         if 0 in shape or len(shape) > 3:
             return None
-        return E("getslice", None, kids, "%s[%s]" % (a.src, _slice_src(index)), a.inputs,
+        return E("getslice", None, kids, "{0}[%s]" % _slice_src(index), a.inputs,
                  Dom(a.out.size, tuple(shape)), core=True)
 
 
@@ -487,8 +563,13 @@ class FGetitem(Family):
             return None
         shape = a.out.shape[:offset] + a.out.shape[offset + 1:]
         pre = ":, " * offset
-        return E("getitem", offset, kids, "%s[%s%s]" % (a.src, pre, idx.src), inputs, Dom(a.out.size, shape),
-                 core=True)
+        xt = ()
+        if idx.tag == "variable" and any(n in a.inputs for n in idx.inputs):
+            xt = ("index-variable-names-existing-input",)
+        if idx.tag == "binary" and idx.op in COMPARISONS:
+            xt += ("bool-index",)
+        return E("getitem", offset, kids, "{0}[%s{1}]" % pre, inputs, Dom(a.out.size, shape), core=True,
+                 value_kids=(1,), xtags=xt)
 
 
 class FLambda(Family):
@@ -514,8 +595,11 @@ class FLambda(Family):
         name, size, _ = p
         inputs = OrderedDict((k, d) for k, d in a.inputs.items() if k != name)
         out = Dom(a.out.size, (size,) + a.out.shape)
-        return E("lambda", None, kids, "Lambda(Variable(%r, Bint[%d]), %s)" % (name, size, a.src), inputs, out,
-                 core=True, nbind=1)
+        xt = [] if name in a.inputs else ["lambda-body-ignores-var"]
+        if a.tag == "number":
+            xt.append("number-part")
+        return E("lambda", None, kids, "Lambda(Variable(%r, Bint[%d]), {0})" % (name, size), inputs, out,
+                 core=True, nbind=1, xtags=xt)
 
 
 class FStack(Family):
@@ -534,7 +618,8 @@ class FStack(Family):
         inputs = merge(OrderedDict([(name, bint(2))]), a.inputs, b.inputs)
         if inputs is None:
             return None
-        return E("stack", None, kids, "Stack(%r, (%s, %s))" % (name, a.src, b.src), inputs, a.out, core=True)
+        xt = ("number-part",) if "number" in (a.tag, b.tag) else ()
+        return E("stack", None, kids, "Stack(%r, ({0}, {1}))" % name, inputs, a.out, core=True, xtags=xt)
 
 
 class FCat(Family):
@@ -566,7 +651,7 @@ class FCat(Family):
         if inputs is None:
             return None
         inputs[name] = bint(a.inputs[pn].size + b.inputs[pn].size)
-        return E("cat", None, kids, "Cat(%r, (%s, %s), %r)" % (name, a.src, b.src, pn), inputs, a.out, core=True,
+        return E("cat", None, kids, "Cat(%r, ({0}, {1}), %r)" % (name, pn), inputs, a.out, core=True,
                  nbind=1)
 
 
@@ -588,7 +673,7 @@ class FIndependent(Family):
             return None
         inputs = OrderedDict((k, d) for k, d in a.inputs.items() if k not in (b, r))
         inputs["z"] = real(a.inputs[b].size, *a.inputs[r].shape)
-        return E("independent", None, kids, "Independent(%s, 'z', %r, %r)" % (a.src, b, r), inputs, a.out,
+        return E("independent", None, kids, "Independent({0}, 'z', %r, %r)" % (b, r), inputs, a.out,
                  core=False, nbind=2)
 
 
@@ -634,7 +719,7 @@ class FEinsum(Family):
         inputs = merge(a.inputs, b.inputs)
         if inputs is None or len(shape) > 3:
             return None
-        return E("einsum", eq, kids, "Einsum(%r, %s, %s)" % (eq, a.src, b.src), inputs, real(*shape), core=False)
+        return E("einsum", eq, kids, "Einsum(%r, {0}, {1})" % eq, inputs, real(*shape), core=False)
 
 
 class FFinStack(Family):
@@ -656,7 +741,7 @@ class FFinStack(Family):
             return None
         z = np.zeros(a.out.shape)
         shape = (np.stack([z, z], d) if kind == "stack" else np.concatenate([z, z], d)).shape
-        return E("op" + kind, d, kids, "ops.%s((%s, %s), %d)" % (kind, a.src, b.src, d), inputs,
+        return E("op" + kind, d, kids, "ops.%s(({0}, {1}), %d)" % (kind, d), inputs,
                  Dom(a.out.size, shape), core=False)
 
 
@@ -704,7 +789,8 @@ class FSubs0(Family):
         kind, pairs = p
         keys = [k for k, _ in pairs if k in a.inputs]
         inputs = OrderedDict((k, d) for k, d in a.inputs.items() if k not in keys)
-        for k, v in pairs:
+        order = list(a.inputs)
+        for k, v in sorted(pairs, key=lambda kv: order.index(kv[0]) if kv[0] in order else -1):
             if k not in a.inputs:
                 continue
             if isinstance(v, str):
@@ -712,8 +798,8 @@ class FSubs0(Family):
                 if inputs.setdefault(v, dom) != dom:
                     return None
         args = ", ".join("%s=%r" % (k, v) for k, v in pairs)
-        return E("subs", kind, kids, "%s(%s)" % (a.src, args), inputs, a.out, core=(kind != "foreign" or True),
-                 nbind=len(keys))
+        xt = subs_tags(a, dict(pairs))
+        return E("subs", kind, kids, "{0}(%s)" % args, inputs, a.out, core=True, nbind=len(keys), xtags=xt)
 
 
 class FSubs1(Family):
@@ -735,13 +821,15 @@ class FSubs1(Family):
         inputs = merge(inputs, v.inputs)
         if inputs is None:
             return None
-        return E("subs", "value", kids, "%s(%s=%s)" % (a.src, key, v.src), inputs, a.out,
-                 core=v.tag in ("number", "tensor", "variable"), nbind=1)
+        xt = subs_tags(a, {key: v})
+        return E("subs", "value", kids, "{0}(%s={1})" % key, inputs, a.out,
+                 core=v.tag in ("number", "tensor", "variable"), nbind=1, value_kids=(1,), xtags=xt)
 
 
 class FSubs2(Family):
     name = "subs2"
     arity = 3
+    leaf_values = True
 
     def params(self, kids):
         a, v, w = kids
@@ -759,11 +847,15 @@ class FSubs2(Family):
         a, v, w = kids
         k1, k2 = p
         inputs = OrderedDict((k, d) for k, d in a.inputs.items() if k not in p)
-        inputs = merge(inputs, v.inputs, w.inputs)
+        order = list(a.inputs)
+        first, second = (v, w) if order.index(k1) < order.index(k2) else (w, v)
+        inputs = merge(inputs, first.inputs, second.inputs)
         if inputs is None:
             return None
-        return E("subs", "value2", kids, "%s(%s=%s, %s=%s)" % (a.src, k1, v.src, k2, w.src), inputs, a.out,
-                 core=all(x.tag in ("number", "tensor", "variable") for x in (v, w)), nbind=2)
+        xt = subs_tags(a, {k1: v, k2: w})
+        return E("subs", "value2", kids, "{0}(%s={1}, %s={2})" % (k1, k2), inputs, a.out,
+                 core=all(x.tag in ("number", "tensor", "variable") for x in (v, w)), nbind=2,
+                 value_kids=(1, 2), xtags=xt)
 
 
 # ----------------------------------------------------------------------------------------------
@@ -835,49 +927,49 @@ def _rng(seed, key):
     return np.random.RandomState((zlib.crc32(repr(key).encode()) ^ (seed * 2654435761)) & 0x7FFFFFFF)
 
 
-def next_level(pools, fams, cap, seed, stats, max_rank=2, new_only=True):
+def next_level(pools, fams, cap, seed, stats, tries, max_rank=2):
     """pools: list of levels, each a dict tag -> [E]. Returns the next level (dict tag -> [E]).
 
-    A candidate of the new level has at least one child from the last level."""
+    Every candidate of the new level has at least one child from the last level.  For each family and
+    each tuple of child slots (constructor tag, level) the child tuples are enumerated completely when
+    there are at most ``tries`` of them and sampled (``tries`` draws, seeded) otherwise; for each child
+    tuple every parameter is tried; at most ``cap`` well-typed expressions are kept per shape
+    (family, parameter class, child slots)."""
     last = len(pools) - 1
-    all_by_tag = {}
+    slots = {}
     for lvl, pool in enumerate(pools):
         for tag, es in pool.items():
-            all_by_tag.setdefault(tag, []).extend((lvl, e) for e in es)
-    tags = sorted(all_by_tag)
+            slots[(tag, lvl)] = es
+    slot_keys = sorted(slots)
     new = {}
     seen_src = set()
     for fam in fams:
-        for child_tags in itertools.product(tags, repeat=fam.arity):
-            lists = [all_by_tag[t] for t in child_tags]
-            # group candidates by parameter class
-            by_class = {}
+        for child_slots in itertools.product(slot_keys, repeat=fam.arity):
+            if not any(lvl == last for _, lvl in child_slots):
+                continue
+            if fam.leaf_values and any(lvl != 0 for _, lvl in child_slots[1:]):
+                continue
+            lists = [slots[c] for c in child_slots]
             n_kids = 1
             for lst in lists:
                 n_kids *= len(lst)
-            if n_kids == 0:
-                continue
-            exhaustive_kids = n_kids <= ENUM_MAX
+            exhaustive_kids = n_kids <= tries
             if exhaustive_kids:
                 kid_iter = itertools.product(*lists)
             else:
-                rng = _rng(seed, (fam.name, child_tags, "kids"))
-                kid_iter = (tuple(lst[rng.randint(len(lst))] for lst in lists) for _ in range(ENUM_MAX))
-            for kt in kid_iter:
-                if new_only and not any(lvl == last for lvl, _ in kt):
-                    continue
-                kids = tuple(e for _, e in kt)
+                rng = _rng(seed, (fam.name, child_slots, "kids"))
+                kid_iter = (tuple(lst[rng.randint(len(lst))] for lst in lists) for _ in range(tries))
+            by_class = {}
+            for kids in kid_iter:
                 for p in fam.params(kids):
                     by_class.setdefault(fam.pclass(p), []).append((kids, p))
             for pc, cands in sorted(by_class.items(), key=lambda kv: repr(kv[0])):
-                shape_key = (fam.name, pc, child_tags)
-                rng = _rng(seed, shape_key)
+                shape_key = (fam.name, pc, child_slots)
                 order = list(range(len(cands)))
                 complete = exhaustive_kids
                 if len(cands) > cap:
-                    rng.shuffle(order)
+                    _rng(seed, shape_key).shuffle(order)
                 kept = 0
-                valid = 0
                 for idx in order:
                     kids, p = cands[idx]
                     e = fam.make(kids, p)
@@ -885,7 +977,6 @@ def next_level(pools, fams, cap, seed, stats, max_rank=2, new_only=True):
                         continue
                     if e.src in seen_src:
                         continue
-                    valid += 1
                     if kept < cap:
                         seen_src.add(e.src)
                         new.setdefault(e.tag, []).append(e)
@@ -895,12 +986,12 @@ def next_level(pools, fams, cap, seed, stats, max_rank=2, new_only=True):
                         break
                 stats["shapes"] = stats.get("shapes", 0) + 1
                 if not complete:
-                    stats["capped_shapes"] = stats.get("capped_shapes", 0) + 1
+                    stats["capped_or_sampled_shapes"] = stats.get("capped_or_sampled_shapes", 0) + 1
                 stats["kept"] = stats.get("kept", 0) + kept
     return new
 
 
-def generate(sizes, depth, caps, seed=0, rich=False):
+def generate(sizes, depth, caps, seed=0, rich=False, tries=(ENUM_MAX, 24, 12)):
     """All expressions up to ``depth`` for one universe; caps[d-1] bounds level d per shape."""
     L = leaves(sizes, rich)
     level0 = {}
@@ -911,7 +1002,7 @@ def generate(sizes, depth, caps, seed=0, rich=False):
     fams = families(sizes)
     for d in range(1, depth + 1):
         st = {}
-        pools.append(next_level(pools, fams, caps[d - 1], seed, st))
+        pools.append(next_level(pools, fams, caps[d - 1], seed, st, tries[d - 1]))
         stats["level%d" % d] = st
     out = []
     for lvl, pool in enumerate(pools):
